@@ -481,7 +481,9 @@ def prot(ctx):
             if U.strip(e[2]) != ("prot",):
                 bad = bad or "stores %s, not the requested mask" % A.show(e[2])
             # guard: prot <= 7 assumed on the storing path
-            if o.path.maxbits.get(("prot",)) != 3 and o.path.maxbits.get(PROT) != 3:
+            # (however the test is spelled: every bit of the mask above the three permission bits is known to be clear)
+            if o.path.maxbits.get(("prot",)) != 3 and o.path.maxbits.get(PROT) != 3 and \
+                    any(b_ != 0 for b_ in A.bitvec(PROT, o.path)[3:]):
                 bad = bad or "no `prot <= 7` guard before the store"
             # matching area: section_start == area.start assumed
             if not any(c[0][0] == "bin" and c[0][1] == "Eq" and M.is_area_field(c[0][3], "start") or
